@@ -101,8 +101,10 @@ CLAIMS = {
         "them, log1p's first component is (log phi1(1+z) + log phi2(1+z))/2 where the arguments do not wrap, every function reduces "
         "to the complex one for z2 = 0, and for every real polynomial p: imag12 of p(x+ih+jh) = (p(x) - Re p(x+2ih))/2 and imag1 of "
         "p(x+ih) = Im p(x+ih) exactly (what the multicomplex method extracts). Tie: translator; ring operations also generated as "
-        "computable code and compared exactly on Gaussian dyadics. Partial: composites (division, pow, sqrt, tan..csch, inverse "
-        "functions, log's arg_c) are not theorems: they are validated against the independent idempotent oracle by the search.",
+        "computable code and compared exactly on Gaussian dyadics; _pow_integer's loop is translated and proved to reduce to the ring power; "
+        "the small arguments of the (repaired) arctan / arcsin are proved algebraically equal to the cancelling differences in any field and "
+        "the two splitting identities are proved on the real line. Partial: composites (division, real pow, sqrt, tan..csch, inverse "
+        "functions off the real axis, log's arg_c) are not theorems: they are validated against the independent idempotent oracle by the search.",
    technique="Lean 4 proof (Mathlib complex trig identities) on translator-generated formulas + exact ring correspondence"),
  'C01': dict(
    text="Flagship theorem derivative_exact_on_polynomials (Lean 4, any ordered field): for central/forward/backward, every n>=1, "
